@@ -151,7 +151,7 @@ pub fn judge(ctx: &Ctx, l: &mut Local, c: &Cfg, tag: &str) {
     let params = Params::new(method_of(&c.method));
     let dr = DateRange::from(c.start..=c.end());
     let expected: RangeResult = prayer_times_dt_rng(&params, c.site().loc(), &dr);
-    let mut fail = |clause: &str, detail: Value| {
+    let fail = |clause: &str, detail: Value| {
         ctx.violation(clause, &key, json!({"kind": "accepted", "cfg": case(), "args": c.args()}), detail);
     };
     // run 1: -o and -p
